@@ -3,16 +3,21 @@ coq/Model/SmcTotalpower.v; correspondence of the model with the real System; ora
 from props.parts import smc_lib as L
 
 PART = dict(name='c04_totalpower', simulator='totalpower', ready=True,
-            coq_targets=['Properties/C04_totalpower.vo', 'Corr/SmcTotalpowerCorr.vo'])
+            coq_targets=['Properties/C04_totalpower.vo', 'Corr/SmcTotalpowerCorr.vo',
+                         'Properties/C04_totalpower_packet.vo', 'Corr/SmcTpPacketCorr.vo'])
 
 
 def correspondence(ctx):
     L.run_corr(ctx, L.TPSim, 'general', 40, 600)
+    L.tpp_corr(ctx)          # data packets: System._send_packet / _get_status(binary) against Model/SmcTpPacket.v
 
 
 def oracle(ctx):
     L.oracle_c04(ctx, L.TPSim)
+    L.tpp_oracle(ctx)        # decoded-packet facts of Properties/C04_totalpower_packet.v on the real System
 
 
 def replay(ctx, obj):
+    if str(obj.get('klass', '')).startswith('totalpower_packet_'):
+        return L.tpp_replay(ctx, obj)
     return L.replay_generic(ctx, obj, L.TPSim)
